@@ -9,6 +9,7 @@ import (
 	"reflect"
 	"sort"
 
+	"github.com/New-JAMneration/JAM-Protocol/internal/safrole"
 	"github.com/New-JAMneration/JAM-Protocol/internal/service_account"
 	"github.com/New-JAMneration/JAM-Protocol/internal/types"
 	"github.com/New-JAMneration/JAM-Protocol/internal/utilities/merklization"
@@ -150,6 +151,47 @@ func (ru *run) sealedAsPrescribed(prior *types.State, b *types.Block) (bool, str
 		return seq.Keys[idx] == key, kind
 	}
 	return false, kind
+}
+
+// fullSpecSealerProbe: the chain parameters are a configuration; histories run with the tiny set (an epoch of 12 slots,
+// 6 validators), so the two sealer-sequence constructions are also evaluated once per run under the full set (600
+// slots, 1023 validators) on synthetic inputs, against the same reference functions. Pure functions - they ride on the
+// run as a by-product, like the historical lookup in C31.
+func fullSpecSealerProbe(r *sim.Run) {
+	t := r.T
+	types.SetFullMode()
+	defer types.SetTinyMode()
+	var eta types.Entropy
+	copy(eta[:], t.Bytes(4, "full_spec_entropy"))
+	vals := make(types.ValidatorsData, types.ValidatorsCount)
+	for i := range vals {
+		h := h256([]byte{byte(i), byte(i >> 8), 0x5E}, eta[:2])
+		copy(vals[i].Bandersnatch[:], h[:])
+	}
+	got := safrole.FallbackKeySequence(eta, vals)
+	want := refFallback(eta, vals)
+	if len(got) != len(want) {
+		r.Violate("C23", "sealer-sequence", "full-spec-fallback-sequence-length", "full parameter set: the fallback sequence has %d keys, an epoch has %d slots", len(got), len(want))
+		return
+	}
+	for i := range want {
+		if got[i] != want[i] {
+			r.Violate("C23", "sealer-sequence", "full-spec-fallback-sequence-wrong", "full parameter set (epoch of %d slots, %d validators): fallback sealer key of slot index %d is %x, the entropy-derived key is %x", types.EpochLength, types.ValidatorsCount, i, got[i][:4], want[i][:4])
+			return
+		}
+	}
+	acc := make(types.TicketsAccumulator, types.EpochLength)
+	for i := range acc {
+		acc[i].ID[0], acc[i].ID[1], acc[i].ID[2] = byte(i>>8), byte(i), 0x77
+		acc[i].Attempt = types.TicketAttempt(i % 2)
+	}
+	gotZ := safrole.OutsideInSequencer(&acc)
+	wantZ := outsideInRef(acc)
+	if !reflect.DeepEqual([]types.TicketBody(gotZ), wantZ) {
+		r.Violate("C23", "sealer-sequence", "full-spec-outside-in-sequence-wrong", "full parameter set: the outside-in ordering of a full accumulator of %d tickets differs from the reference", len(acc))
+		return
+	}
+	r.Count("probe:sealer_sequences_evaluated_under_full_parameter_set", 1)
 }
 
 func normTK(t types.TicketsOrKeys) string {
